@@ -177,28 +177,42 @@ fn subjects() -> Vec<Subject> {
             }),
         });
     }
-    // CEDT fixed memory window restrictions
-    v.push(Subject {
-        exclusive: vec![],
-        unjudged: vec![],
-        name: "cedt.CxlFixedMemory",
-        actions: vec!["cxl_type_2_memory", "cxl_type_3_memory", "volatile", "persistent", "fixed_configuration"],
-        real: Box::new(move |s| {
-            use acpi_tables::cedt::{CxlFixedMemory, InterleaveArithmetic as A, InterleaveGranularity as G, InterleaveWays as Wy};
-            let mut m = CxlFixedMemory::new(f.u64(0), f.u64(1), A::Modulo, G::Granularity256b, Wy::Ways1, f.u16(4));
-            for a in s {
-                m = cedt_hest::real_cfmws_opts(m, 1 << *a);
-            }
-            m.add_target([1, 2, 3, 4]);
-            ser(&m)
-        }),
-        reference: Box::new(move |s| {
-            let m = mask_of(s, &[1, 2, 4, 8, 16]);
-            let mut w = W::new();
-            w.u8(1).u8(0).u16(40).u32(0).u64(f.u64(0)).u64(f.u64(1)).u8(0).u8(0).u16(0).u32(0).u16(m).u16(f.u16(4)).b(&[1, 2, 3, 4]);
-            w.0
-        }),
-    });
+    // CEDT fixed memory window restrictions, for every interleave-ways value x arithmetic x a granularity (an option must
+    // set its own bit whatever the window it is applied to looks like)
+    for wi in 0..8usize {
+        for ar in 0..2usize {
+            let gr = (wi * 2 + ar) % 7;
+            v.push(Subject {
+                exclusive: vec![],
+                unjudged: vec![],
+                name: Box::leak(format!("cedt.CxlFixedMemory[{} ways, arithmetic {}, granularity {}]", cedt_hest::WAYS[wi].1, ar, gr).into_boxed_str()),
+                actions: vec!["cxl_type_2_memory", "cxl_type_3_memory", "volatile", "persistent", "fixed_configuration"],
+                real: Box::new(move |s| {
+                    use acpi_tables::cedt::{CxlFixedMemory, InterleaveArithmetic as A, InterleaveGranularity as G, InterleaveWays as Wy};
+                    let ways = [Wy::Ways1, Wy::Ways2, Wy::Ways4, Wy::Ways8, Wy::Ways16, Wy::Ways3, Wy::Ways6, Wy::Ways12][wi];
+                    let g = [G::Granularity256b, G::Granularity512b, G::Granularity1kb, G::Granularity2kb, G::Granularity4kb, G::Granularity8kb, G::Granularity16kb][gr];
+                    let mut m = CxlFixedMemory::new(f.u64(0), f.u64(1), [A::Modulo, A::ModuloXor][ar], g, ways, f.u16(4));
+                    for a in s {
+                        m = cedt_hest::real_cfmws_opts(m, 1 << *a);
+                    }
+                    for t in 0..cedt_hest::WAYS[wi].1 {
+                        m.add_target([1 + t as u8, 2, 3, 4]);
+                    }
+                    ser(&m)
+                }),
+                reference: Box::new(move |s| {
+                    let m = mask_of(s, &[1, 2, 4, 8, 16]);
+                    let n = cedt_hest::WAYS[wi].1;
+                    let mut w = W::new();
+                    w.u8(1).u8(0).u16((36 + 4 * n) as u16).u32(0).u64(f.u64(0)).u64(f.u64(1)).u8(cedt_hest::WAYS[wi].0).u8(ar as u8).u16(0).u32(gr as u32).u16(m).u16(f.u16(4));
+                    for t in 0..n {
+                        w.b(&[1 + t as u8, 2, 3, 4]);
+                    }
+                    w.0
+                }),
+            });
+        }
+    }
     // TCPA server flags (whole table, so the checksum is covered too); the two address-taking options once with the
     // pattern's address space and once with each of system memory, system I/O, PCI configuration space, functional fixed
     // hardware (an option must set its own bit whatever its argument is)
